@@ -195,8 +195,11 @@ def c16_distributed(rng, tier):
     Fe = np.zeros((ny - 1, 3)); Fe[:, 2] = -W
     _check_loads(out, "structural weight loads", np.array(p.get_val("struct_weight_loads")), nodes,
                  Fe.sum(axis=0), np.cross(mid, Fe).sum(axis=0), ny=ny, symmetry=sym)
-    vols = rng.uniform(0.1, 2.0, size=ny - 1)
-    fm = float(rng.uniform(1e3, 3e4))
+    # from airliner tanks down to the few litres of a small UAV
+    scale = float(10 ** rng.uniform(-4.5, 0)) if rng.uniform() < 0.5 else 1.0
+    vols = rng.uniform(0.1, 2.0, size=ny - 1) * scale
+    fm = float(rng.uniform(1e3, 3e4)) * scale
+    s["Wf_reserve"] *= scale
     p = comp_problem(FuelLoads(surface=s), dict(nodes=nodes, fuel_vols=vols, fuel_mass=fm, load_factor=lf))
     fw = (fm + s["Wf_reserve"]) * G * lf / (2 if sym else 1)
     Fe = np.zeros((ny - 1, 3)); Fe[:, 2] = -fw * vols / vols.sum()
@@ -950,7 +953,12 @@ def c13_effects(rng, tier):
 # a live component problem taken through a sequence of points must reproduce a fresh problem
 # ---------------------------------------------------------------------------------------
 def history_case(name, rng, tier, variant=None):
-    """one live-problem history for component spec `name`; returns failures (code vs code, no model involved)"""
+    """one live-problem history for component spec `name`; returns failures (code vs code, no model involved).
+
+    A -> linearise x k -> B1 -> (run, linearise x m | another instance in between) -> compare with a fresh problem at B1
+      -> B2 -> run, linearise -> compare with a fresh problem at B2.
+    B is: one input set to exactly zero (every input in turn, scalars included), a perturbation of everything, the same point,
+    or exactly one input changed."""
     from .specs import SPECS
     from . import suites
     from .core import comp_jacobian, comp_outputs, flat_cat
@@ -963,24 +971,26 @@ def history_case(name, rng, tier, variant=None):
     outs = c["outputs"]; innames = list(inputs)
     allA = dict(inputs); allA.update(extra)
 
-    def perturbed(kind):
+    def perturbed(kind, base):
         b = {}
-        for k, v in allA.items():
+        for k, v in base.items():
             v = np.array(v, dtype=float)
             b[k] = v * (1 + 0.2 * rng.uniform(-1, 1, size=v.shape)) if kind != "same" else v.copy()
         if kind.startswith("zero:"):
             k0 = kind[5:]
-            b[k0] = np.zeros_like(np.array(allA[k0], dtype=float))
+            b[k0] = np.zeros_like(np.array(base[k0], dtype=float))
         if kind.startswith("only:"):
-            # exactly one input differs from A (a cache keyed on the other inputs would go stale)
+            # exactly one input differs from the previous point (a cache keyed on the other inputs would go stale)
             k0 = kind[5:]
-            b = {k: (b[k] if k == k0 else np.array(v, dtype=float).copy()) for k, v in allA.items()}
+            b = {k: (b[k] if k == k0 else np.array(v, dtype=float).copy()) for k, v in base.items()}
         return b
     big = [k for k in innames if np.asarray(allA[k]).size > 1]
     small = [k for k in innames if np.asarray(allA[k]).size == 1]
-    kinds = ["zero:" + k for k in big] + ["perturbed", "same"] + ["only:" + k for k in small] + ["only:" + k for k in big]
-    kind = kinds[int(rng.integers(len(kinds)))] if variant is None else kinds[variant % len(kinds)]
-    B = perturbed(kind)
+    kinds = ["zero:" + k for k in big] + ["perturbed", "same"] + ["only:" + k for k in small] + ["only:" + k for k in big] \
+        + ["zero:" + k for k in small]
+    v0 = int(rng.integers(len(kinds))) if variant is None else variant % len(kinds)
+    kind = kinds[v0]
+    kind2 = kinds[(v0 + (len(kinds) + 1) // 2) % len(kinds)]
     want_jac = c.get("jac", True) and sp["jac"]
 
     def evaluate(prob, nlin=1):
@@ -997,58 +1007,6 @@ def history_case(name, rng, tier, variant=None):
     def setall(prob, vals):
         for k, v in vals.items():
             prob.set_val(k, v)
-    live = comp_problem(c["factory"](), allA)
-    seq = ["A"]
-    evaluate(live)
-    nrep = int(rng.integers(1, 3))
-    for _ in range(nrep):          # linearise repeatedly at A
-        if want_jac:
-            comp_jacobian(live, outs, innames); seq.append("linearize")
-    setall(live, B); seq.append("B(%s)" % kind)
-    nlin = int(rng.integers(1, 4))
-    excL = excF = None
-    rng.uniform()                       # (keeps the random stream of the earlier version)
-    interleave = bool(CURRENT_K % 2 == 1)       # every second history of a component interleaves a second instance
-    try:
-        if interleave:
-            # a second instance of the same component (same names, same sizes, other inputs) is set up, run and linearised between
-            # the analysis of the live problem and its linearisation: instances must not share state
-            with quiet():
-                live.run_model()
-            c2 = suites.component_case(name, rng, nx, ny, sym)
-            all2 = dict(c2["inputs"]); all2.update(c2.get("extra_inputs", {}))
-            try:
-                other = comp_problem(c2["factory"](), all2)
-                if want_jac and c2.get("jac", True):
-                    comp_jacobian(other, c2["outputs"], list(c2["inputs"]))
-            except Exception:
-                pass            # whether the second case itself is admissible is not the subject here
-            seq.append("another instance run and linearised")
-            JL = None
-            if want_jac:
-                Jd = comp_jacobian(live, outs, innames)        # no run_model in between
-                JL = np.concatenate([np.concatenate([Jd[(oo, ii)].ravel() for ii in innames]) for oo in outs])
-            with quiet():
-                live.run_model()
-            oL = flat_cat(comp_outputs(live, outs), outs); seq.append("linearize, run")
-        else:
-            oL, JL = evaluate(live, nlin); seq.append("run, linearize x%d" % nlin)
-            if rng.uniform() < 0.3:
-                oL, JL = evaluate(live); seq.append("again")
-    except Exception as ex:
-        excL = type(ex).__name__
-    try:
-        fresh = comp_problem(c["factory"](), B)
-        oF, JF = evaluate(fresh)
-    except Exception as ex:
-        excF = type(ex).__name__
-    if excL or excF:
-        if excL == excF:
-            raise Discard()       # the point itself is not admissible (e.g. zero stiffness): not a history effect
-        return [_fail("a live problem and a fresh problem disagree on whether the point can be evaluated", excL, excF,
-                      component=name, nx=nx, ny=ny, symmetry=sym, sequence=seq)]
-    out = []
-    case = dict(component=name, nx=nx, ny=ny, symmetry=sym, sequence=seq)
 
     def same(a, b):
         a = np.asarray(a, dtype=float); b = np.asarray(b, dtype=float)
@@ -1061,11 +1019,84 @@ def history_case(name, rng, tier, variant=None):
             return True
         sc = max(np.max(np.abs(a[fin])), np.max(np.abs(b[fin])), 1e-300)
         return bool(np.max(np.abs(a[fin] - b[fin])) <= 1e-10 * sc)
-    if not same(oL, oF):
-        out.append(_fail("outputs of a live problem differ from a fresh problem at the same point", float(np.nanmax(np.abs(oL - oF))), 0.0, **case))
-    if want_jac and not same(JL, JF):
-        out.append(_fail("derivatives of a live problem differ from a fresh problem at the same point", float(np.nanmax(np.abs(JL - JF))), 0.0, **case))
-    return out
+
+    live = comp_problem(c["factory"](), allA)
+    seq = ["A"]
+    evaluate(live)
+    nrep = int(rng.integers(1, 3))
+    for _ in range(nrep):          # linearise repeatedly at A
+        if want_jac:
+            comp_jacobian(live, outs, innames); seq.append("linearize")
+    rng.uniform()                       # (keeps the random stream of the earlier version)
+    interleave = bool(CURRENT_K % 2 == 1)       # every second history of a component interleaves a second instance
+
+    def step(knd, base, first):
+        """move the live problem to the next point, evaluate, compare with a fresh problem there; returns (failures, point) or raises Discard"""
+        B = perturbed(knd, base)
+        setall(live, B); seq.append("B(%s)" % knd)
+        nlin = int(rng.integers(1, 4))
+        excL = excF = None
+        oL = JL = oF = JF = None
+        try:
+            if interleave:
+                # a second instance of the same component (same names, same sizes, other inputs – and the other symmetry setting when the
+                # component has one) is set up, run and linearised between the analysis of the live problem and its linearisation
+                with quiet():
+                    live.run_model()
+                rng.uniform()
+                sym2 = (not sym) if len(sp["sym_opts"]) > 1 else sym
+                try:
+                    c2 = suites.component_case(name, rng, nx, ny, sym2)
+                    all2 = dict(c2["inputs"]); all2.update(c2.get("extra_inputs", {}))
+                    other = comp_problem(c2["factory"](), all2)
+                    if want_jac and c2.get("jac", True):
+                        comp_jacobian(other, c2["outputs"], list(c2["inputs"]))
+                except Exception:
+                    pass            # whether the second case itself is admissible is not the subject here
+                seq.append("another instance (symmetry=%s) run and linearised" % sym2)
+                if want_jac:
+                    Jd = comp_jacobian(live, outs, innames)        # no run_model in between
+                    JL = np.concatenate([np.concatenate([Jd[(oo, ii)].ravel() for ii in innames]) for oo in outs])
+                with quiet():
+                    live.run_model()
+                oL = flat_cat(comp_outputs(live, outs), outs); seq.append("linearize, run")
+            else:
+                oL, JL = evaluate(live, nlin); seq.append("run, linearize x%d" % nlin)
+                if rng.uniform() < 0.3:
+                    oL, JL = evaluate(live); seq.append("again")
+        except Exception as ex:
+            excL = type(ex).__name__
+        try:
+            fresh = comp_problem(c["factory"](), B)
+            oF, JF = evaluate(fresh)
+        except Exception as ex:
+            excF = type(ex).__name__
+        if excL or excF:
+            if excL == excF:
+                raise Discard()       # the point itself is not admissible (e.g. zero stiffness): not a history effect
+            return [_fail("a live problem and a fresh problem disagree on whether the point can be evaluated", excL, excF,
+                          component=name, nx=nx, ny=ny, symmetry=sym, sequence=list(seq))], B
+        out = []
+        case = dict(component=name, nx=nx, ny=ny, symmetry=sym, sequence=list(seq))
+        if not same(oL, oF):
+            out.append(_fail("outputs of a live problem differ from a fresh problem at the same point", float(np.nanmax(np.abs(oL - oF))), 0.0, **case))
+        if want_jac and not same(JL, JF):
+            out.append(_fail("derivatives of a live problem differ from a fresh problem at the same point", float(np.nanmax(np.abs(JL - JF))), 0.0, **case))
+        return out, B
+
+    out, B1 = step(kind, allA, True)
+    if out:
+        return out
+    with quiet():
+        o1 = flat_cat(comp_outputs(live, outs), outs)
+    if not np.all(np.isfinite(o1)):
+        return out          # the point just visited is not admissible (non-finite outputs, identically on a fresh problem): the
+                            # property quantifies over histories of admissible points, so the history ends here
+    try:
+        out2, _ = step(kind2, B1 if not kind.startswith("zero:") else allA, False)
+    except Discard:
+        return out
+    return out2
 
 
 def register_history(prop, components):
@@ -1190,6 +1221,50 @@ def c14_generate(rng, tier):
     return out
 
 
+@oracle("C14", "multi_section_geometry_group")
+def c14_multisec_group(rng, tier):
+    """the wiring of the run-time group `MultiSecGeometry` (section geometry groups -> unification component, joining component):
+    the unified mesh it outputs is the unification of the meshes its own section groups output, and the joint separations are the
+    corner-to-corner differences of those meshes along the requested axes.  (How the section design variables `span`, `taper`,
+    `sweep` act on the generated section meshes is not part of the property and is not examined.)"""
+    import openmdao.api as om
+    from openaerostruct.geometry.geometry_group import MultiSecGeometry
+    from openaerostruct.geometry.geometry_unification import unify_mesh
+    n = int(rng.integers(2, 5)); nx = int(rng.integers(2, 5))
+    ny = [int(rng.integers(2, 6)) for _ in range(n)]
+    taper = [float(rng.choice([1.0, rng.uniform(0.5, 1.0)])) for _ in range(n)]
+    span = [float(rng.uniform(0.5, 3)) for _ in range(n)]; sweep = [float(rng.uniform(0, 0.4)) for _ in range(n)]
+    surface = dict(name="surface", num_sections=n, sec_name=["sec%d" % i for i in range(n)], symmetry=True, S_ref_type="wetted",
+                   taper=taper, span=span, sweep=sweep, root_chord=float(rng.uniform(1, 3)), meshes="gen-meshes", nx=nx, ny=ny)
+    masks = []
+    for k in range(n - 1):
+        mk = rng.integers(0, 2, size=3)
+        if not mk.any():
+            mk[0] = 1
+        masks.append(np.array(mk, dtype=int))
+    prob = om.Problem(reports=False)
+    prob.model.add_subsystem("geom", MultiSecGeometry(surface=surface, joining_comp=True, dim_constr=masks, shift_uni_mesh=False))
+    with quiet():
+        prob.setup(); prob.run_model()
+    out = []
+    case = dict(sections=n, nx=nx, ny=ny, masks=[m.tolist() for m in masks])
+    secs = [np.array(prob.get_val("geom.sec%d.mesh" % i)) for i in range(n)]
+    uni = np.array(prob.get_val("geom.surface_unification.surface_uni_mesh"))
+    req = unify_mesh([dict(mesh=m.copy()) for m in secs], shift_uni_mesh=False)
+    if uni.shape != req.shape or np.max(np.abs(uni - req)) > 0:
+        out.append(_fail("the unified mesh of MultiSecGeometry is not the unification of the meshes of its own sections",
+                         list(uni.shape), list(req.shape), **case))
+    sep = np.array(prob.get_val("geom.surface_joining.section_separation"))
+    exp = []
+    for k in range(n - 1):
+        d = np.concatenate([secs[k + 1][0, 0] - secs[k][0, -1], secs[k + 1][-1, 0] - secs[k][-1, -1]]).reshape(2, 3)
+        exp.append(d[:, masks[k].astype(bool)].ravel())
+    exp = np.concatenate(exp)
+    if sep.shape != exp.shape or np.max(np.abs(sep - exp)) > 1e-13:
+        out.append(_fail("joint separations are not the corner differences of neighbouring section meshes along the requested axes", sep, exp, **case))
+    return out
+
+
 @oracle("C14", "multi_section_join_and_unify")
 def c14_sections(rng, tier):
     from openaerostruct.geometry.geometry_mesh_gen import generate_mesh as gen_sections
@@ -1299,6 +1374,40 @@ from . import oracles_struct  # noqa: F401,E402
 # ---------------------------------------------------------------------------------------
 # C04  the geometric design variables act identically on the half and on the full description
 # ---------------------------------------------------------------------------------------
+@oracle("C04", "half_vs_full_fuel")
+def c04_half_full_fuel(rng, tier):
+    """fuel loads and fuel-volume margin of a half model against the mirrored full-span model: the modelled half carries the same
+    distributed fuel loads (its half share, reserve included) and the margin of the full model is twice that of the half"""
+    from openaerostruct.structures.fuel_loads import FuelLoads
+    from openaerostruct.structures.wingbox_fuel_vol_delta import WingboxFuelVolDelta
+    nx, ny = _pick_size(rng, tier)
+    ny = max(ny, 3)
+    sh = gen.base_surface(rng, nx, ny, True, fem="wingbox", jitter=0.0)
+    scale = float(10 ** rng.uniform(-4.5, 0)) if rng.uniform() < 0.3 else 1.0
+    sh["Wf_reserve"] = float(rng.uniform(0, 2000.0)) * scale; sh["fuel_density"] = float(rng.uniform(700, 850))
+    mh = sh["mesh"]
+    mf = np.concatenate([mh, (mh[:, ::-1] * np.array([1.0, -1.0, 1.0]))[:, 1:]], axis=1)
+    sf = dict(sh); sf["mesh"] = mf; sf["symmetry"] = gen.flag(rng, False)
+    nodes_h = _nodes_of(sh); nodes_f = _nodes_of(sf)
+    vh = rng.uniform(0.1, 2.0, size=ny - 1) * scale; vf = np.concatenate([vh, vh[::-1]])
+    fm = float(rng.uniform(1e3, 3e4)) * scale; lf = float(rng.choice([1.0, 2.5, -1.0, rng.uniform(0.5, 3)]))
+    out = []
+    case = dict(ny=ny, reserve=sh["Wf_reserve"], load_factor=lf, scale=scale)
+    ph = comp_problem(FuelLoads(surface=sh), dict(nodes=nodes_h, fuel_vols=vh, fuel_mass=fm, load_factor=lf))
+    pf = comp_problem(FuelLoads(surface=sf), dict(nodes=nodes_f, fuel_vols=vf, fuel_mass=fm, load_factor=lf))
+    lh = np.array(ph.get_val("fuel_weight_loads")); lfull = np.array(pf.get_val("fuel_weight_loads"))
+    # the root node of the full model receives the contributions of both halves: compare the outboard nodes and the force totals
+    if relerr(lh[:-1], lfull[:ny - 1]) > 1e-10:
+        out.append(_fail("distributed fuel loads on the modelled half differ between the half and the full model", lh[0], lfull[0], **case))
+    if abs(2 * lh[:, 2].sum() - lfull[:, 2].sum()) > 1e-10 * abs(lfull[:, 2].sum()):
+        out.append(_fail("total fuel weight of the full model is not twice that of the half model", lfull[:, 2].sum(), 2 * lh[:, 2].sum(), **case))
+    dh = float(comp_problem(WingboxFuelVolDelta(surface=sh), dict(fuelburn=fm, fuel_vols=vh)).get_val("fuel_vol_delta")[0])
+    df = float(comp_problem(WingboxFuelVolDelta(surface=sf), dict(fuelburn=fm, fuel_vols=vf)).get_val("fuel_vol_delta")[0])
+    if abs(df - 2 * dh) > 1e-10 * max(abs(df), vf.sum()):
+        out.append(_fail("fuel-volume margin of the full model is not twice that of the half model", df, 2 * dh, **case))
+    return out
+
+
 @oracle("C04", "half_vs_full_geometry_dvs")
 def c04_geometry_dvs(rng, tier):
     """the same surface dictionary (taper, sweep, dihedral, span, chord / twist distributions with equal control points)
